@@ -15,9 +15,14 @@
 (*   ifs   the optional interfaces the instrumented writer implements      *)
 (*         beside io.Writer (subset of StringWriter, ByteWriter,           *)
 (*         ReaderFrom), as Go's type assertions see it                     *)
+(*   fl    what the writer's Flush() method returns ("none": it has no     *)
+(*         Flush method; "nil", "sticky", "fails": Writer!FlushResult)     *)
+(*   ek    the class of the error VALUES the writer returns ("plain",      *)
+(*         "eintr", "eintr-path", "eagain", "short", "timeout", "ctx",     *)
+(*         "eof", "closed"): the laws are the same for every class         *)
 (*   via, off, acc, err   the log of the calls the writer received through *)
 (*         ANY of its methods, in order: method (0 Write, 1 WriteString,   *)
-(*         2 WriteByte, 3 ReadFrom), bytes offered, bytes accepted, and    *)
+(*         2 WriteByte, 3 ReadFrom, 4 Flush), bytes offered, bytes accepted, and    *)
 (*         err[j] = j if call j returned an error (each call returns its   *)
 (*         own error value) or 0.  All laws are evaluated over this log,   *)
 (*         i.e. over every method through which bytes can reach the writer *)
@@ -59,6 +64,7 @@ W == INSTANCE Writer WITH MaxChunks <- 0, UnitSizes <- {0}, UnitKinds <- {"fmt"}
        PieceCount <- "piece", LatchBy <- "test", CachedViews <- FALSE, LatchError <- TRUE, CountAccepted <- TRUE,
        KeepFirstError <- FALSE, LatchOn <- "err", Modes <- {}, Pieces <- {}, GivenFile <- "", MaxCalls <- 1, LaterModes <- {}, FreshPerCall <- TRUE,
        ShareChoices <- {FALSE}, PerWriterWrapper <- FALSE,
+       FlushKinds <- {"none"}, ErrKinds <- {"plain"}, FlushAtEnd <- FALSE, RetryKinds <- {}, MaxRetry <- 0,
        stage <- "cfg", w <- 0, chunks <- <<>>, kinds <- <<>>, fw <- 0, obs <- 0, delivered <- <<>>, sess <- 0
 
 Trace == ndJsonDeserialize("writer_rec.ndjson")
@@ -67,21 +73,23 @@ BlockSize == 512
 NB == (N + BlockSize - 1) \div BlockSize
 
 Ifs(r) == {r.ifs[i] : i \in DOMAIN r.ifs}
-Method(v) == <<"Write", "WriteString", "WriteByte", "ReadFrom">>[v + 1]
+Method(v) == <<"Write", "WriteString", "WriteByte", "ReadFrom", "Flush">>[v + 1]
 Writer0(r) == [mode |-> r.mode, sticky |-> r.st = 1, piece |-> IF r.p < 0 THEN 0 ELSE r.p,
-               cap |-> r.k, cap0 |-> r.k, failed |-> r.f0 = 1, failed0 |-> r.f0 = 1, src |-> 0, ifs |-> Ifs(r)]
+               cap |-> r.k, cap0 |-> r.k, failed |-> r.f0 = 1, failed0 |-> r.f0 = 1, src |-> 0, ifs |-> Ifs(r),
+               flush |-> r.fl, errk |-> r.ek]
 
 \* fold the log: implementation state f, observer o, writer model wr, equipment flag ok
 RECURSIVE Fold(_, _, _, _, _, _)
 Fold(r, j, f, o, wr, ok) ==
   IF j > Len(r.off) THEN [fw |-> f, obs |-> o, wr |-> wr, ok |-> ok]
   ELSE LET sz == r.off[j]  acc == r.acc[j]  fail == r.err[j] # 0
-           m  == W!Resp(wr, sz)
+           \* a Flush() call offers no bytes and does not touch the sink
+           m  == IF r.via[j] = 4 THEN [acc |-> 0, fail |-> fail, cap |-> wr.cap, failed |-> wr.failed] ELSE W!Resp(wr, sz)
        IN Fold(r, j + 1,
                W!FwStep(f, j, sz, acc, fail),
                W!ObsStepM(o, Method(r.via[j]), sz, acc, fail, 0),
                [wr EXCEPT !.cap = m.cap, !.failed = m.failed],
-               ok /\ r.err[j] \in {0, j} /\ acc >= 0 /\ acc <= sz /\ m.acc = acc /\ m.fail = fail
+               ok /\ (r.err[j] \in {0, j} \/ (r.via[j] = 4 /\ r.err[j] \in 0..j)) /\ acc >= 0 /\ acc <= sz /\ m.acc = acc /\ m.fail = fail
                   /\ (r.via[j] = 2 => sz = 1))
 
 Folded(r) == Fold(r, 1, W!FwInit, W!ObsInit, Writer0(r), TRUE)
@@ -95,7 +103,7 @@ RowOK(r) ==
       s == Summary(r, x)
       honest == r.mode # "silent"
       equipment == /\ x.ok /\ Len(r.acc) = Len(r.off) /\ Len(r.err) = Len(r.off) /\ Len(r.via) = Len(r.off)
-                   /\ Ifs(r) \subseteq W!AllIfaces /\ x.obs.methods \subseteq W!MethodsOf(Ifs(r))
+                   /\ Ifs(r) \subseteq W!AllIfaces /\ x.obs.methods \subseteq W!MethodsOfW(Writer0(r))
                    /\ r.dlen = x.obs.accepted
                    /\ (honest => W!FailsAtCapacityP(s, Writer0(r)))
       laws == << <<"CountExact", W!CountExactP(s)>>,
